@@ -16,12 +16,44 @@ def call(case):
     return first
 
 
+class _Spelled(object):
+    """An object that is not a string but prints like one."""
+
+    def __init__(self, s):
+        self.s = s
+
+    def __str__(self):
+        return self.s
+
+    __repr__ = __str__
+
+
+def _arg(a):
+    # JSON cannot carry Python-only values: {"py": kind, ...} stands for them
+    if isinstance(a, dict) and "py" in a:
+        k = a["py"]
+        if k == "None":
+            return None
+        if k == "bool":
+            return bool(a["v"])
+        if k == "float":
+            return float(a["v"])
+        if k == "strobj":
+            return _Spelled(a["s"])
+        if k == "bytes":
+            return a["s"].encode("utf-8")
+        if k == "list":
+            return [a["s"]]
+        raise ValueError("unknown py kind")
+    return a
+
+
 def call_once(case):
     fn = getattr(scales, case["fn"], None)
     if fn is None:
         return "EXC MissingFunction"
     try:
-        r = fn(case["arg"])
+        r = fn(_arg(case["arg"]))
     except ValueError:
         return "ValueError"
     except Exception as e:  # noqa: BLE001
